@@ -268,6 +268,54 @@ func execMsgWriteAfterFailure(a []string) string {
 	return res + " | " + execMsgWrite(a[12:])
 }
 
+// pieceWriter takes the bytes in pieces and keeps them: the sizes of the first pieces, then at most k per call; after
+// the scheduled pieces a call may report the end of the stream or an error together with its k bytes
+type pieceWriter struct {
+	k     int
+	sched []int
+	last  string
+	got   []byte
+}
+
+func (w *pieceWriter) Write(p []byte) (int, error) {
+	k := w.k
+	var err error
+	if len(w.sched) > 0 {
+		k = w.sched[0]
+		w.sched = w.sched[1:]
+	} else if w.last == "eof" {
+		err = io.EOF
+	} else if w.last == "err" {
+		err = fmt.Errorf("connection reset")
+	}
+	if k > len(p) {
+		k = len(p)
+	}
+	w.got = append(w.got, p[:k]...)
+	return k, err
+}
+
+// msg.pieces <k> <message: 10 fields> <sizes of the first pieces…> [eof|err]: the message is written to a writer that
+// takes it in pieces without reporting anything: the outcome, and everything the writer has taken
+func execMsgPieces(a []string) string {
+	k, _ := strconv.Atoi(a[0])
+	m := qnet.Message{Header: parseHeader(a[1:]), Payload: unhx(a[10])}
+	w := &pieceWriter{k: k}
+	for _, x := range a[11:] {
+		if x == "eof" || x == "err" {
+			w.last = x
+		} else {
+			n, _ := strconv.Atoi(x)
+			w.sched = append(w.sched, n)
+		}
+	}
+	res := "ok "
+	if err := m.Write(w); err != nil {
+		res = "err "
+	}
+	return res + hx(w.got)
+}
+
 // countingReader counts what has been taken from it
 type countingReader struct {
 	r io.Reader
@@ -327,6 +375,7 @@ func init() {
 	executors["msg.reread"] = execMsgReread
 	executors["msg.write"] = execMsgWrite
 	executors["msg.wfail"] = execMsgWriteAfterFailure
+	executors["msg.pieces"] = execMsgPieces
 	executors["msg.conn"] = execMsgConn
 	runners["C01"] = runC01
 }
@@ -647,6 +696,37 @@ func genWriteCase(r *Rand, tier string, o *Out) {
 			h1.Magic, h1.ID, h1.Size, h1.Version, h1.Type, h1.Flags, h1.Service, h1.Object, h1.Action, hx(p1),
 			h.Magic, h.ID, h.Size, h.Version, h.Type, h.Flags, h.Service, h.Object, h.Action, hx(p)), true)
 		o.Count("write:after-a-failed-write:" + mode)
+		return
+	}
+	if r.Chance(30) {
+		// the writer takes the message in pieces (short writes without an error)
+		k := 1 + r.Intn(9)
+		if r.Chance(30) {
+			k = 1 + r.Intn(28+len(p))
+		}
+		var sched []string
+		left := 28 + len(p)
+		for n := r.Intn(5); n > 0 && left > 0; n-- {
+			c := 1 + r.Intn(12)
+			if r.Chance(10) {
+				c = 0
+				o.Count("write:in-pieces:a-call-that-takes-nothing")
+			}
+			sched = append(sched, strconv.Itoa(c))
+			left -= c
+		}
+		switch c := r.Intn(10); {
+		case c == 0:
+			sched = append(sched, "eof")
+			o.Count("write:in-pieces:end-of-stream-with-a-piece")
+		case c == 1:
+			sched = append(sched, "err")
+			o.Count("write:in-pieces:error-with-a-piece")
+		default:
+			o.Count("write:in-pieces")
+		}
+		o.Do(class, strings.TrimSpace(fmt.Sprintf("msg.pieces %d %d %d %d %d %d %d %d %d %d %s %s", k, h.Magic, h.ID, h.Size, h.Version, h.Type, h.Flags,
+			h.Service, h.Object, h.Action, hx(p), strings.Join(sched, " "))), true)
 		return
 	}
 	if r.Chance(15) {
